@@ -136,11 +136,16 @@ def gen_ops(g, rng, tier, only=None):
         mh = mask_hex(k)
         default = g["defaults"][cname]
         rw = [r for r in by_cls[cname] if r["access"] == "rw"]
-        light = {r["fld"] for r in rw if quick and (cname, r["fld"]) in g["light"]}
+        light = {r["fld"] for r in rw if (cname, r["fld"]) in g["light"]}
         pools = {}
         for r in rw:
             dom = args[(cname, r["fld"])][0]
-            pool = light_pool(rng, r, dom) if r["fld"] in light else value_pool(rng, r, dom, exhaustive_bits, nrand)
+            if r["fld"] not in light:
+                pool = value_pool(rng, r, dom, exhaustive_bits, nrand)
+            elif quick:
+                pool = light_pool(rng, r, dom)
+            else:
+                pool = value_pool(rng, r, dom, 8, 40)
             pools[r["fld"]] = [v for v in pool if v not in avoided(g, cname, r["fld"])]
         if not rw:
             # getters only (parse-only class): the getters are judged against the image on every `init`
@@ -173,7 +178,7 @@ def gen_ops(g, rng, tier, only=None):
                 ops += [f"set {r['fld']} {v}" for v in seq]
         # (1) every value of the pool of every row, from random prior images
         for r in rw:
-            if r["fld"] in light:
+            if quick and r["fld"] in light:
                 continue                                 # the small pool was used in (0) and is used again in (2)
             vals = list(pools[r["fld"]])
             if len(vals) > 4096:
@@ -184,9 +189,10 @@ def gen_ops(g, rng, tier, only=None):
                 ops.append(f"init {cname} {rand_image(rng, L, default)} {mh}")
                 ops += [f"set {r['fld']} {v}" for v in vals[i:i + per_case]]
         # (2) random interleavings of setters of different fields on one object
-        n_inter = 1500
+        full_share = (len(rw) - len(light)) / max(1, len(rw))
+        n_inter = 1000 if not light else max(100, int(1000 * full_share))
         if quick:
-            n_inter = 60 if not light else max(10, int(60 * (len(rw) - len(light)) / max(1, len(rw))))
+            n_inter = 60 if not light else max(10, int(60 * full_share))
         usable = [r for r in rw if pools[r["fld"]]]
         for _ in range(n_inter if usable else 0):
             ops.append(f"init {cname} {rand_image(rng, L, default)} {mh}")
@@ -313,8 +319,9 @@ def run(chk):
         "DHCPv6 relay types) is covered shape by shape with that field held fixed (read-only row, image bytes forced by the generator)",
         "802.11 frames with fixed parameters are exercised with From DS = 0 (with both DS bits set libtins inserts a fourth address "
         "before the fixed parameters; the 4-address shape is covered by the *WDS variants)",
-        "quick tier: rows whose accessor code is exercised at full strength in another class (inherited accessors, variants of one "
-        "C++ class) get boundary + random values only; the thorough tier treats every row alike",
+        "rows whose accessor code is exercised at full strength in another class (inherited accessors, variants of one C++ class) "
+        "are sampled lightly there: boundary + random values (quick), every value of domains <= 8 bits + boundaries + 40 random values "
+        "(thorough); they take part in the interleavings like every other row",
         "LLC: the cached format member type_ is set by LLC::type() after the image is poked (the generator keeps the type bits of the "
         "control octet consistent with it)",
     ]
